@@ -36,6 +36,14 @@ theorem C33_source_shape :
     saltLength = 16 ∧ nonceLength = 12 ∧ keyLength = 32 ∧ pbkdf2Iterations = 600000 ∧ tagLength = 16 ∧
     dns1035Regex = "^[a-z]([a-z0-9-]{0,61}[a-z0-9])?$" := by decide
 
+/-- The archive layer has no size-dependent behaviour (re-read from `archive.py` on every run): neither the writer,
+the reader nor `_add_bytes_to_tar` tests a length or a tar member's size or reads a bounded number of bytes, and the
+module defines / mentions no integer that could be a size bound.  This is what entitles the model to treat member
+contents as opaque values of *any* length: `C33_roundtrip` quantifies over all codecs' outputs, so with this fact it
+speaks about secrets and resources of every size (a reader that skipped or cut "too large" members would make the
+round trip fail exactly for those, which the model cannot see from the inside). -/
+theorem C33_size_agnostic : sizeTests = [] ∧ sizeConstants = [] := by decide
+
 /-! ## classification -/
 
 /-- For every valid deployment name, each of the four member names the writer can build from it
